@@ -42,6 +42,8 @@ type Case struct {
 	Fn string `json:"fn,omitempty"` // mul | add
 	A  int    `json:"a,omitempty"`
 	B  int    `json:"b,omitempty"`
+	// conn / ws: "" = HTTP POST, WS = graphql-ws, WS2 = graphql-transport-ws
+	Via string `json:"via,omitempty"`
 	// conn
 	Total int `json:"total,omitempty"`
 	// history
